@@ -12,14 +12,14 @@ import sym as S
 
 LEVEL = "other"
 TECHNIQUE = ("paired fragment canonicalisation (mapper vs cache against references related by the declared Option<->sentinel encoding), "
-             "alpha-equivalence of sibling functions, writer/reader table agreement")
+             "per-implementation references for every query kind (sibling alpha-equivalence recorded as a cross-reference only), writer/reader table agreement")
 EXPLANATION = ("Decides every place where the two separately written implementations must agree, not the runtime equality itself: "
                "(1) both builders interpret a Method record identically modulo the encoding table None<->u32::MAX; (2) both frame iterators "
                "equal paired references (line and parameter variants), same dispatch, same unknown-name behaviour; (3) both record loops handle "
                "the same record kinds with the same guards (Header with any value, Class flush guard, Method; Field ignored); (4) the writer's "
                "BTreeMap keys are exactly the strings the reader's comparators read, compared by str::cmp with the entry on the left; "
                "(5) every (offset,len) pair written for a class is read against the matching section; (6) remap_method's all-agree rule in "
-               "both; (7) text/typed trace APIs and signature helpers are alpha-equivalent modulo receiver; (8) the mapper's line index is "
+               "both; (7) text/typed trace APIs, throwable remapping and signature deobfuscation equal the SAME reference in each implementation (sibling alpha-equivalence is recorded, a divergence is listed in coverage.twin_divergence and is not a verdict); (8) the mapper's line index is "
                "not guarded by the parameter-index flag. Composition into query-for-query equality is a paper argument (DESIGN.md section 4).")
 RULE_TEXT = R1.RULE_TEXT
 TRUSTED = R1.TRUSTED + ["watto StringTable::insert de-duplicates (same string -> same offset) and maps \"\" to usize::MAX"]
